@@ -869,8 +869,13 @@ func vxConsumeRows(iter *Iter, r *cqlspec.Response, consumer int, k *vstats.Case
 	}
 	switch consumer {
 	case 0:
+		// the usual loop scans every row into the same variables: do that for results with an even row count
+		shared := vxRowHolders(r.Meta)
 		for i := range r.Rows {
-			dests := vxRowHolders(r.Meta)
+			dests := shared
+			if len(r.Rows)%2 == 1 {
+				dests = vxRowHolders(r.Meta)
+			}
 			args := make([]interface{}, len(dests))
 			for j, d := range dests {
 				args[j] = d.ptr.Interface()
@@ -887,11 +892,15 @@ func vxConsumeRows(iter *Iter, r *cqlspec.Response, consumer int, k *vstats.Case
 		}
 	case 1:
 		sc := iter.Scanner()
+		sharedSc := vxRowHolders(r.Meta)
 		for i := range r.Rows {
 			if !sc.Next() {
 				return fmt.Errorf("Scanner.Next false at row %d of %d: %v", i, len(r.Rows), sc.Err())
 			}
-			dests := vxRowHolders(r.Meta)
+			dests := sharedSc
+			if len(r.Rows)%2 == 1 {
+				dests = vxRowHolders(r.Meta)
+			}
 			args := make([]interface{}, len(dests))
 			for j, d := range dests {
 				args[j] = d.ptr.Interface()
